@@ -112,6 +112,10 @@ var vlCodeOf = map[string]string{
 	"TrzszRelay.resetToStandby:Store:tunnelRelay":     "X",
 	"TrzszRelay.resetToStandby:Store:tunnelConnected": "X",
 
+	// "handshaking" stored by the worker is no step of the model (the output reader publishes it
+	// in front of the forward of the trigger): logged as a store of role H, which the replay
+	// rejects at H0; gated like any store, so that a schedule can place it
+	"TrzszRelay.handshake:Store:relayStatus":               "T",
 	"TrzszRelay.handshake:call:recvAction":                 "Q",
 	"TrzszRelay.handshake:call:recvConfig":                 "Q",
 	"TrzszRelay.handshake:Store:tunnelConnected":           "X",
